@@ -325,7 +325,11 @@ func (st *State) store(p Ptr, v Value) {
 	}
 	if p.SymIdx != nil {
 		arr := st.arrayAt(Ptr{Obj: p.Obj, Path: p.Path})
-		st.symWrite(arr, p.SymIdx, v)
+		if st.trySymWrite(arr, p.SymIdx, v) {
+			return
+		}
+		// elements cannot be merged (pointers, channels ...): fork over the index values
+		st.store(st.concretizePtr(p), v)
 		return
 	}
 	_, set := st.cellRef(p)
@@ -385,15 +389,36 @@ func (st *State) symRead(arr *ArrayV, idx *Term) Value {
 }
 
 func (st *State) symWrite(arr *ArrayV, idx *Term, v Value) {
+	if !st.trySymWrite(arr, idx, v) {
+		panic(needFork{})
+	}
+}
+
+// trySymWrite leaves the array untouched when the elements cannot be merged.
+func (st *State) trySymWrite(arr *ArrayV, idx *Term, v Value) (ok bool) {
 	if idx.IsConst() {
 		arr.E[idx.Val] = copyValue(v)
-		return
+		return true
 	}
 	n := st.idxBound(idx, len(arr.E))
+	upd := make([]Value, n)
+	defer func() {
+		if r := recover(); r != nil {
+			if _, is := r.(needFork); is {
+				ok = false
+				return
+			}
+			panic(r)
+		}
+	}()
 	for i := 0; i < n; i++ {
 		c := st.tt.Eq(idx, st.tt.Const(uint64(i), idx.W))
-		arr.E[i] = st.merge(c, v, arr.get(i))
+		upd[i] = st.merge(c, v, arr.get(i))
 	}
+	for i := 0; i < n; i++ {
+		arr.E[i] = upd[i]
+	}
+	return true
 }
 
 // merge returns ite(c, a, b) for mergeable values.
